@@ -36,6 +36,10 @@ type c13Exec struct {
 	pureIface    func(fn *types.Func) bool // interface methods treated as pure functions of their arguments
 	assumeNonNil func(t *c13Term) bool     // values assumed non-nil
 	pureMemo     map[*types.Func]int
+	globals      map[*types.Var]*c13Global
+	heapSlots    map[types.Object]c13HeapSlot
+	heapVars     map[c13HeapSlot]types.Object
+	probing      int
 }
 
 type c13Decl struct {
@@ -50,6 +54,7 @@ type c13Fr struct {
 	fn     *types.Func
 	depth  int
 	parent *c13Fr
+	res    *types.Tuple // result types of the function whose body runs in this frame
 }
 
 const (
@@ -106,7 +111,7 @@ func (x *c13Exec) unsupported(st *c13State, pos token.Pos, format string, args .
 // run executes fi on symbolic parameters.
 func (x *c13Exec) run(fi *FuncInfo) (params map[types.Object]*c13Term) {
 	st := &c13State{env: map[types.Object]*c13Term{}, pcIdx: map[string]bool{}, heap: map[int]*c13Cell{}}
-	fr := &c13Fr{pk: fi.Pkg, info: fi.Pkg.TypesInfo, fn: fi.Obj}
+	fr := &c13Fr{pk: fi.Pkg, info: fi.Pkg.TypesInfo, fn: fi.Obj, res: fi.Obj.Type().(*types.Signature).Results()}
 	params = map[types.Object]*c13Term{}
 	bind := func(fl *ast.FieldList) {
 		if fl == nil {
@@ -196,7 +201,7 @@ func (x *c13Exec) lookup(st *c13State, t *c13Term) (val, known bool) {
 
 func (x *c13Exec) nonNil(st *c13State, t *c13Term) bool {
 	switch t.op {
-	case c13OpRef, c13OpAddr, c13OpAddrVar, c13OpLit, c13OpFuncLit, c13OpFuncRef, c13OpMake:
+	case c13OpRef, c13OpAddr, c13OpAddrVar, c13OpLit, c13OpFuncLit, c13OpFuncRef, c13OpMake, c13OpTypedNil:
 		return true
 	case c13OpApp:
 		return len(t.args) > 1
@@ -391,6 +396,9 @@ func (x *c13Exec) eval(st *c13State, fr *c13Fr, e ast.Expr, k func(*c13State, *c
 		case *types.Var:
 			if t, ok := st.env[o]; ok {
 				k(st, t)
+			} else if g := x.globalInit(o); g.init != nil {
+				// a read-only package-level table: its initialiser is its value
+				x.eval(st, &c13Fr{pk: g.pk, info: g.pk.TypesInfo, depth: fr.depth + 1, parent: fr}, g.init, k)
 			} else {
 				k(st, x.symFor(st, o))
 			}
